@@ -47,6 +47,10 @@ const prop = "C15"
 // not performed (excluded by construction, counted in Outcome.Excluded).
 const sigBoundChildWindow = "bound-child-deleted-before-tombstoned"
 
+// noExclusion switches the by-construction exclusion off (TestKnownBoundChildWindow only);
+// windowExercised reports that the last run performed an interrupt in exactly that window.
+var noExclusion, windowExercised bool
+
 var outerT *testing.T
 
 var dbgLog = os.Getenv("VERIF_DEBUG") != ""
@@ -612,10 +616,13 @@ func (c *checker) opWorker(op Op, step string) error {
 		when := "before"
 		if after {
 			when = "after"
-			if st, _, _ := c.statusOf(id); st < headstorage.DeletedStatusQueued && vstat.KnownSignature(prop, sigBoundChildWindow) {
-				c.excluded = sigBoundChildWindow
-				c.w.Logf("  worker call-out %s(%s): interrupt after the call-out skipped (known finding %s)", call, c.name(id), sigBoundChildWindow)
-				return
+			if st, _, _ := c.statusOf(id); st < headstorage.DeletedStatusQueued {
+				if !noExclusion && vstat.KnownSignature(prop, sigBoundChildWindow) {
+					c.excluded = sigBoundChildWindow
+					c.w.Logf("  worker call-out %s(%s): interrupt after the call-out skipped (known finding %s)", call, c.name(id), sigBoundChildWindow)
+					return
+				}
+				windowExercised = true
 			}
 		}
 		c.w.Logf("  worker call-out %s(%s): interrupt %d %s the tree manager acts", call, c.name(id), op.B, when)
@@ -786,6 +793,7 @@ func run(c Case) (out vstat.Outcome, err error) {
 }
 
 func runInBubble(cs Case) (out vstat.Outcome, err error) {
+	windowExercised = false
 	w, err := delsim.New(outerT, cs.Seed, cs.Async)
 	if err != nil {
 		return out, fmt.Errorf("setup: %w", err)
